@@ -16,6 +16,7 @@ import (
 	"encoding/json"
 	"errors"
 	"fmt"
+	"io"
 	"runtime"
 	"strings"
 	"sync"
@@ -64,6 +65,12 @@ type Case struct {
 	WFKLen     int  `json:"wfk_len,omitempty"`     // the vault returns an envelope of this many bytes (the wrapped key followed by padding)
 	NameLen    int  `json:"name_len,omitempty"`    // length of the key name
 	HdrTarget  int  `json:"header_len,omitempty"`  // the header length WFKLen/NameLen were chosen for
+	// S7 (repeat_test.go): Repeat > 0 decrypts that many times in a row with an
+	// unwrap function that hands out the SAME slice for the same wrapped key
+	// (a vault client that caches what it unwrapped); Overlap opens all the
+	// streams before reading any.
+	Repeat  int  `json:"repeat,omitempty"`
+	Overlap bool `json:"overlap,omitempty"`
 }
 
 // MaxHeader is the limit stated in schemes/enc/v1 (fileKey.SignHeader: "The
@@ -327,7 +334,7 @@ func runCase(c *Case, record bool) (masks [][]encenv.Mask, fails []failure) {
 		}
 	}
 	pureUnwrap := kw.UnwrapFn(ko.vault, &asked, strip(wfk))
-	var handed []byte // the slice the unwrap function gave to Decrypt
+	var handed, handedCopy []byte // the slice the unwrap function gave to Decrypt, and what it held
 	unwrapFn := func(w []byte, alg, name string, nonce, tag []byte) ([]byte, error) {
 		var k []byte
 		var err error
@@ -341,9 +348,18 @@ func runCase(c *Case, record bool) (masks [][]encenv.Mask, fails []failure) {
 			k, err = pureUnwrap(strip(w), alg, name, nonce, tag)
 		}
 		handed = k
+		handedCopy = append([]byte(nil), k...)
 		return k, err
 	}
-	var after func()
+	// kit must leave the slice the unwrap function returned alone: it belongs
+	// to the caller (a vault client may hand out the same slice again)
+	untouched := func(when string) {
+		if c.UnwrapMode == 0 && !bytes.Equal(handed, handedCopy) {
+			fail("unwrap-result-modified-by-Decrypt", "%s the slice the unwrap function returned holds %x, it returned %x", when, handed, handedCopy)
+			handedCopy = append([]byte(nil), handed...)
+		}
+	}
+	after := func() { untouched("when Decrypt returned") }
 	if c.UnwrapMode != 0 {
 		after = func() {
 			if c.WipeLate {
@@ -378,6 +394,11 @@ func runCase(c *Case, record bool) (masks [][]encenv.Mask, fails []failure) {
 	consR := &encenv.Consumer{Buf: c.Policy[envR], Script: encenv.ScriptFor(c.Devs, envR), Record: record}
 	out, err := consR.ReadAll(stream, c.Len)
 	masks[envC], masks[envR] = srcC.Masks, consR.Masks
+	untouched("after the stream was read to its end")
+	if cl, ok := stream.(io.Closer); ok {
+		cl.Close()
+		untouched("after the stream was closed")
+	}
 	switch {
 	case errors.Is(err, encenv.ErrHang):
 		fail(tag+":stream-does-not-terminate", "Decrypt's stream over %s: %v", who, err)
@@ -417,6 +438,8 @@ func run(r *enumx.Run, replay *enumx.ReplayCase) {
 		var fails []failure
 		if c.Big {
 			fails, _ = bigStream(c.Dir)
+		} else if c.Repeat > 0 {
+			fails = runRepeat(&c)
 		} else {
 			_, fails = runCase(&c, false)
 		}
@@ -428,7 +451,7 @@ func run(r *enumx.Run, replay *enumx.ReplayCase) {
 		return
 	}
 
-	r.Rule("each evaluation is one complete Encrypt->Decrypt pipeline on the real code with all three oracles (round trip; README layout; reference implementation reads kit's document / kit reads the reference's document written with the manifest members in the opposite order). S1: full product cipher{unset,AES-GCM,CHACHA20-POLY1305} x 8 key-wrap configurations (5 algorithms, 2 aliases, RSA-4096) x 5 key-name options x 14 plaintext lengths x 2 directions. S2: uniform chunking policies (source chunk {fill,1,7,4096,65535,65536} x consumer buffer {big,1,7,4096}) for each pipeline half. S2h: the ciphertext source delivers uniform frames of headerLength+k bytes, k in -2..3, and 2*headerLength+1. S3: every set of <= bound deviations {0 bytes,1 byte,n-1 bytes,stop at segment boundary,data+EOF, Read ends at header end+k for k in -1..3 (ciphertext source) | 1-byte buffer,7-byte buffer} placed on the calls of the four environments, generated once each in (environment, call index) order from the applicability recorded in the parent run. S5: wrap functions that scrub / overwrite / return / append to the key buffer they were given and callers that zero or overwrite the slice their unwrap function returned right after Decrypt returns (immediately or after one yield; sequential under GOMAXPROCS(1)). S6: header lengths B-1,B,B+1 for B in {512..32768}, 65535, 65536 and 65537 (Encrypt must refuse or still round-trip) reached by a long wrapped-key envelope or a long key name. S4 (thorough): one streamed 65538-segment document in both directions, so that segment counters beyond 65535 occur. Every evaluation is a distinct case by construction; none is trivial (each runs the full pipeline).")
+	r.Rule("each evaluation is one complete Encrypt->Decrypt pipeline on the real code with all three oracles (round trip; README layout; reference implementation reads kit's document / kit reads the reference's document written with the manifest members in the opposite order). S1: full product cipher{unset,AES-GCM,CHACHA20-POLY1305} x 8 key-wrap configurations (5 algorithms, 2 aliases, RSA-4096) x 5 key-name options x 14 plaintext lengths x 2 directions. S2: uniform chunking policies (source chunk {fill,1,7,4096,65535,65536} x consumer buffer {big,1,7,4096}) for each pipeline half. S2h: the ciphertext source delivers uniform frames of headerLength+k bytes, k in -2..3, and 2*headerLength+1. S3: every set of <= bound deviations {0 bytes,1 byte,n-1 bytes,stop at segment boundary,data+EOF, Read ends at header end+k for k in -1..3 (ciphertext source) | 1-byte buffer,7-byte buffer} placed on the calls of the four environments, generated once each in (environment, call index) order from the applicability recorded in the parent run. S5: wrap functions that scrub / overwrite / return / append to the key buffer they were given and callers that zero or overwrite the slice their unwrap function returned right after Decrypt returns (immediately or after one yield; sequential under GOMAXPROCS(1)). Every pipeline also checks that Decrypt left the slice its unwrap function returned untouched (when it returned, after the stream was read, after Close). S7: an unwrap function that hands out the same slice for the same wrapped key (caching vault client): the document is decrypted 2 and 3 times in a row, and two reference documents sharing a file key alternately, streams read one after the other or all opened first. S6: header lengths B-1,B,B+1 for B in {512..32768}, 65535, 65536 and 65537 (Encrypt must refuse or still round-trip) reached by a long wrapped-key envelope or a long key name. S4 (thorough): one streamed 65538-segment document in both directions, so that segment counters beyond 65535 occur. Every evaluation is a distinct case by construction; none is trivial (each runs the full pipeline).")
 
 	// S3 is cheap (a few thousand pipelines), so both tiers take all placements
 	// of <= 2 deviations; quick restricts S2/S3 to the boundary lengths.
@@ -485,6 +508,33 @@ func run(r *enumx.Run, replay *enumx.ReplayCase) {
 	r.Space(fmt.Sprintf("S5 collaborator behaviour: %d pipelines = 4 lengths x 2 ciphers x 8 wrap configurations {%s} x 5 caller behaviours {pure; %s / %s, immediately or after one yield}, reference->kit for the non-writing wraps; sequential under GOMAXPROCS(1)", len(s5), strings.Join(wrapModeNames, ", "), unwrapModeNames[1], unwrapModeNames[2]))
 	r.Sample(s5[len(s5)/2+1])
 	lap("S5")
+
+	// ---- S7: a vault client that caches unwrapped keys (repeat_test.go)
+	var s7 []*Case
+	for _, n := range []int{0, 1, 65537} {
+		for ci := 1; ci <= 2; ci++ {
+			for _, kwl := range []string{chunkKW, "A256CBC-NOPAD"} {
+				for dir := 0; dir < 2; dir++ {
+					for _, rp := range []int{2, 3} {
+						for _, ov := range []bool{false, true} {
+							s7 = append(s7, &Case{Len: n, Cipher: ci, KW: kwl, Dir: dir, Repeat: rp, Overlap: ov})
+						}
+					}
+				}
+			}
+		}
+	}
+	doneS7 := r.Parallel(len(s7), func(i int) {
+		report(s7[i], runRepeat(s7[i]))
+		r.Count(1, 1)
+	})
+	if doneS7 == len(s7) {
+		r.Space(fmt.Sprintf("S7 caching vault client: %d sequences = 3 lengths x 2 ciphers x 2 key wraps x {kit's document decrypted 2/3 times; two reference documents sharing a file key decrypted alternately} x {one after the other, all streams opened first}", len(s7)))
+	} else {
+		r.Incomplete(fmt.Sprintf("S7 caching vault client: %d of %d", doneS7, len(s7)))
+	}
+	r.Sample(s7[len(s7)/2])
+	lap("S7")
 
 	// ---- S4 (thorough only): the streamed 65 538-segment document, both
 	// directions, started now and joined at the end
